@@ -175,14 +175,17 @@ fn apply_edit(sh: &mut Shared, op: &Op, log: &mut Vec<String>) -> bool {
             disk::set_mtime(name, t);
             log.push(format!("touch output {}", name));
         }
-        Op::ToggleInc { src, .. } => {
+        Op::ToggleInc { src, .. } | Op::SetIncs { src, .. } => {
             if !apply_abstract(&mut m.disk, op) {
                 return false;
             }
             if m.disk.srcs[*src].exists {
                 write_src(m, *src, None);
             }
-            log.push(format!("{:?}", op));
+            log.push(match op {
+                Op::SetIncs { src, incs } => format!("set include list of source {} to {} files", src, incs.len()),
+                o => format!("{:?}", o),
+            });
         }
         Op::DelSrc { src } => {
             if !apply_abstract(&mut m.disk, op) {
@@ -227,6 +230,7 @@ fn apply_edit(sh: &mut Shared, op: &Op, log: &mut Vec<String>) -> bool {
             m.recs.clear();
             m.ever_logged.clear();
             m.log_torn_ever = false;
+            m.inv_since_tear = None;
             m.orphan_cut = None;
             sh.stats.bump("fault.log_deleted");
             log.push("delete .n2_db".into());
@@ -248,6 +252,7 @@ fn apply_edit(sh: &mut Shared, op: &Op, log: &mut Vec<String>) -> bool {
             f.set_len(new).unwrap();
             m.cut_log(new);
             m.log_torn_ever = true;
+            m.inv_since_tear = Some(0);
             sh.stats.bump("fault.log_truncated_between_invocations");
             log.push(format!("truncate .n2_db {} -> {} bytes", len, new));
         }
@@ -765,8 +770,11 @@ fn check_invocation(
                     format!("n2: ran {} task{}, now up to date\n", n, if n == 1 { "" } else { "s" })
                 };
                 if !text.ends_with(&want_line) {
-                    let prop = if n == 0 { "C03" } else { "C19" };
-                    v.push(viol(prop, "summary-line", format!("expected final line {:?}, got {:?}", want_line, text.lines().last())));
+                    let d = format!("{} command(s) completed successfully: expected final line {:?}, got {:?}", n, want_line, text.lines().last());
+                    v.push(viol("C19", "summary-line", d.clone()));
+                    if n == 0 {
+                        v.push(viol("C03", "summary-line", d));
+                    }
                 }
             } else {
                 let legit = any_fail || miss || nopool_any || cyc_final || bogus || sh.io_err_fired || sh.sigint_raised;
@@ -900,6 +908,31 @@ fn check_invocation(
             }
         }
     }
+    // ---- the same disagreement seen in a context another property speaks about
+    let structural = ["respell_manifest", "add_step", "remove_step", "move_output", "add_output", "pool_depth"];
+    let only_structural = !sh.model.edits_since_invoke.is_empty() && sh.model.edits_since_invoke.iter().all(|e| structural.contains(e));
+    let near_tear = sh.model.inv_since_tear.map(|n| n <= 1).unwrap_or(false);
+    let mut extra = Vec::new();
+    for x in &v {
+        let dirtyish = matches!(
+            (x.prop, x.code.as_str()),
+            ("C03", "started-clean") | ("C02", "skipped-dirty") | ("C09", "skipped-dirty") | ("C02", "stale-content")
+        );
+        let closureish = x.prop == "C18" && x.code != "log-only-name-accepted";
+        if dirtyish && near_tear {
+            extra.push(viol("C07", &format!("after-tear-{}", x.code), format!("within two invocations of a torn log: {}", x.detail)));
+        }
+        if dirtyish && only_structural {
+            extra.push(viol("C08", &format!("after-manifest-edit-{}", x.code), format!("only the manifest was edited ({:?}) since the last invocation: {}", sh.model.edits_since_invoke, x.detail)));
+        }
+        if (dirtyish || closureish) && reload_at.is_some() {
+            extra.push(viol("C17", &format!("after-reload-{}", x.code), format!("in an invocation that regenerated and reloaded the manifest: {}", x.detail)));
+        }
+        if x.prop == "C05" && x.code == "ancestor-failed" {
+            extra.push(viol("C01", "ancestor-failed", x.detail.clone()));
+        }
+    }
+    v.extend(extra);
     v
 }
 
@@ -920,6 +953,9 @@ pub fn run_scenario(sc: &Scenario, sandbox: &Sandbox, verbose: bool) -> RunResul
         log_torn_ever: false,
         orphan_cut: None,
         content_unknown: false,
+        inv_since_tear: None,
+        edits_since_invoke: vec![],
+        norecord_dep_missing: BTreeSet::new(),
     };
     for i in 0..model.disk.srcs.len() {
         if model.disk.srcs[i].exists {
@@ -993,11 +1029,18 @@ pub fn run_scenario(sc: &Scenario, sandbox: &Sandbox, verbose: bool) -> RunResul
                 );
                 res.log.push(line);
                 let mut v = check_invocation(&mut s, &p1, spec, &outcome, &stdout);
+                s.model.edits_since_invoke.clear();
+                if !(matches!(outcome, Outcome::Crash) || s.dbfault_fired) {
+                    if let Some(n) = &mut s.model.inv_since_tear {
+                        *n += 1;
+                    }
+                }
                 // the log mirror after a death: only whole record groups survive
                 if matches!(outcome, Outcome::Crash) || s.dbfault_fired {
                     let len = disk::file_len(&s.model.disk.db_path()).unwrap_or(0);
                     s.model.cut_log(len);
                     s.model.log_torn_ever = true;
+                    s.model.inv_since_tear = Some(0);
                     if spec.restat && s.orphan.is_some() {
                         // an adoption record of unknown owner may be in the log
                         s.model.orphan_cut = Some(s.model.recs.len());
@@ -1037,6 +1080,7 @@ pub fn run_scenario(sc: &Scenario, sandbox: &Sandbox, verbose: bool) -> RunResul
                 let applied = apply_edit(&mut s, op, &mut log);
                 if applied {
                     s.stats.bump(&format!("edit.{}", op_name(op)));
+                    s.model.edits_since_invoke.push(op_name(op));
                 }
                 res.log.extend(log);
             }
@@ -1070,6 +1114,7 @@ pub fn op_name(op: &Op) -> &'static str {
         Op::Decor { .. } => "command_decor",
         Op::RspVer { .. } => "rspfile_content",
         Op::ToggleInc { .. } => "toggle_include",
+        Op::SetIncs { .. } => "set_includes",
         Op::DelSrc { .. } => "delete_source",
         Op::RestoreSrc { .. } => "restore_source",
         Op::Respell { .. } => "respell_manifest",
